@@ -4,7 +4,7 @@
 (*                                                                         *)
 (* A text is a sequence of symbols: single special characters              *)
 (*   "&" "<" ">" "Q" (double quote) ";" "#" "-" "=" "/" "!" "sp" "hi"      *)
-(* ("hi" = one character above 127, U+00E9) and WORD symbols standing for  *)
+(* ("hi" = one character above 127, U+00E9; "hi2" = one beyond the basic plane, U+1D49C) and WORD symbols standing for  *)
 (* maximal runs of letters or digits ("x", "amp", "lt", "b", "script",     *)
 (* "width", "em", "233", ...), so that entity-like, tag-like and           *)
 (* placeholder-like strings are expressible in a handful of symbols.       *)
@@ -44,7 +44,7 @@ IsLetters(c) == IsWord(c) /\ ~IsDigits(c)
 
 Named == {"amp", "lt", "gt", "quot"}
 NamedChar(w) == CASE w = "amp" -> "&" [] w = "lt" -> "<" [] w = "gt" -> ">" [] w = "quot" -> "Q"
-NumChar(d) == CASE d = "233" -> "hi" [] d = "34" -> "Q" [] d = "60" -> "<" [] d = "38" -> "&" [] d = "62" -> ">" [] d = "39" -> "'" [] OTHER -> "#" \o d     \* any other character: named by its code
+NumChar(d) == CASE d = "233" -> "hi" [] d = "119964" -> "hi2" [] d = "34" -> "Q" [] d = "60" -> "<" [] d = "38" -> "&" [] d = "62" -> ">" [] d = "39" -> "'" [] OTHER -> "#" \o d     \* any other character: named by its code
 
 (* ---------------- machine layer ---------------- *)
 RECURSIVE Hook(_)
@@ -76,7 +76,7 @@ Place(o, i) == IF i > Len(o) THEN <<>>
 Placeholder(o) == IF PlaceholderGuarded THEN o ELSE Place(o, 1)
 
 RECURSIVE High(_)
-High(o) == IF o = <<>> THEN <<>> ELSE (IF Head(o) = "hi" THEN <<"&", "#", "233", ";">> ELSE <<Head(o)>>) \o High(Tail(o))
+High(o) == IF o = <<>> THEN <<>> ELSE (IF Head(o) = "hi" THEN <<"&", "#", "233", ";">> ELSE IF Head(o) = "hi2" THEN <<"&", "#", "119964", ";">> ELSE <<Head(o)>>) \o High(Tail(o))
 
 Out(s, ctx, high) == LET o == Placeholder(Emit(ctx, s)) IN IF high THEN High(o) ELSE o
 
@@ -114,6 +114,6 @@ Spec == Init /\ [][Next]_vars
 
 ShowsAsText == LET d == Decode(ctx, Out(str, ctx, high)) IN d.text = str /\ ~d.markup
 HighCharsOnlyChangeBytes == /\ Decode(ctx, Out(str, ctx, TRUE)) = Decode(ctx, Out(str, ctx, FALSE))
-                            /\ \A k \in 1..Len(Out(str, ctx, TRUE)) : Out(str, ctx, TRUE)[k] # "hi"
+                            /\ \A k \in 1..Len(Out(str, ctx, TRUE)) : Out(str, ctx, TRUE)[k] \notin {"hi", "hi2"}
 EmitBeh == PrintT(<<"BEH", ToJson([s |-> str, ctx |-> ctx, high |-> high, out |-> Out(str, ctx, high)])>>)
 =============================================================================
